@@ -230,6 +230,22 @@ def split_merge(chk, mod):
             a = mk()
             chk.prove(f'{MOD}:hkl_elements_from_hkl_vec/lossless', hyps_of(p),
                       z3.And(*[p.value[n].val == a['hkl_vec'].val[i] for i, n in enumerate('hkl')]))
+    # the vector may carry any unit: a scaled dimensionless one (B in 1/nm, Q in 1/angstrom gives nm/angstrom) or a reciprocal length
+    # (dimensionless UB). What is compared is the physical quantity, value x scale of the unit, so a result re-expressed in another
+    # unit of the same dimension is accepted and a dropped multiplier is not.
+    for utag, uh in (('scaled-dimensionless', symbolic_unit('k_h', NAMED['dimensionless'])), ('reciprocal-length', symbolic_unit('k_hq', NAMED['m'] ** -1))):
+        mk = lambda uh=uh: dict(hkl_vec=arg('hkl', 'one', dtype=VEC, unit=uh))
+        paths = chk.explore(lambda: mod.hkl_elements_from_hkl_vec(**mk()), base=[], catch=CATCH)
+        for p in paths:
+            ok = p.kind == 'return' and list(p.value) == ['h', 'k', 'l']
+            chk.decided(f'{MOD}:hkl_elements_from_hkl_vec/returns-h,k,l[{utag}]', ok, detail=repr(p.value)[:200])
+            if ok:
+                a = mk()
+                chk.decided(f'{MOD}:hkl_elements_from_hkl_vec/same-dimension[{utag}]', all(p.value[n].unit.same_dim(uh) for n in 'hkl'),
+                            detail=repr([p.value[n].unit for n in 'hkl']))
+                if all(p.value[n].unit.same_dim(uh) for n in 'hkl'):
+                    chk.prove(f'{MOD}:hkl_elements_from_hkl_vec/lossless-as-physical-quantity[{utag}]', hyps_of(p),
+                              z3.And(*[p.value[n].val * p.value[n].unit.term() == a['hkl_vec'].val[i] * uh.term() for i, n in enumerate('hkl')]))
     # graph wiring of the vector quantities
     g = kit.load('conversion.graph.tof')
     t = {origin: g.elastic(origin) for origin in ('tof', 'wavelength')}      # the public factory (the table behind it is an implementation detail)
@@ -472,6 +488,22 @@ def _split_merge_failures(limit=10 ** 6):
             fails.append({'id': 'split then merge', 'kind': 'split-merge', 'problem': 'splitting a vector field into components and reassembling them is not the identity'})
     except Exception as e:  # noqa: BLE001
         fails.append({'id': 'split then merge', 'kind': 'split-merge', 'problem': f'raised {type(e).__name__}: {e}'[:300]})
+    # the same with a vector in a scaled dimensionless unit (B in 1/nm, Q in 1/angstrom) and in a reciprocal length: physical values survive
+    for unit in ('nm/angstrom', 'angstrom/nm', 'mm/m', '1/angstrom', '1/nm'):
+        hv = sc.vectors(dims=['u'], values=rng.normal(size=(5, 3)), unit=unit)
+        label = f'split then merge, hkl_vec in {unit}'
+        try:
+            parts = tof.hkl_elements_from_hkl_vec(hkl_vec=hv)
+            for i, n in enumerate('hkl'):
+                want = sc.array(dims=['u'], values=hv.values[:, i], unit=unit)
+                got = parts[n]
+                if got.unit != want.unit:
+                    got = got.to(unit=want.unit)        # refuses (raises) if the dimension changed
+                if not np.allclose(got.values, want.values, rtol=1e-12, atol=0):
+                    fails.append({'id': label, 'kind': 'split-merge', 'problem': f'component {n} is not the component of the vector as a physical quantity (unit {parts[n].unit})'})
+                    break
+        except Exception as e:  # noqa: BLE001
+            fails.append({'id': label, 'kind': 'split-merge', 'problem': f'raised {type(e).__name__}: {e}'[:300]})
     return fails
 
 
